@@ -293,6 +293,8 @@ static int dynamic_block(struct br *b, const struct ri_opts *opt, struct ri_resu
 		memcpy(blk->ll_len, lengths, nlen);
 		memcpy(blk->d_len, lengths + nlen, ndist);
 	}
+	if (blk)
+		blk->hdr_end_bit = b->bit;
 	if (lengths[256] == 0)
 		FAIL(RC_BLOCK, "no end-of-block code");
 	struct huff ll, d;
